@@ -821,8 +821,7 @@ dt_strfdt(char *restrict buf, size_t bsz, const char *fmt, struct dt_dt_s that)
 	int set_fmt = 0;
 
 	if (UNLIKELY(buf == NULL || bsz == 0)) {
-		bp = buf;
-		goto out;
+		return 0U;
 	}
 
 	if (LIKELY(fmt == NULL)) {
@@ -1156,8 +1155,7 @@ dt_strfdtdur(
 	char *bp;
 
 	if (UNLIKELY(buf == NULL || bsz == 0)) {
-		bp = buf;
-		goto out;
+		return 0U;
 	}
 
 	switch (that.d.durtyp) {
